@@ -77,9 +77,10 @@ def _num(well):
 
 @st.composite
 def _case(draw):
-    D = draw(st.integers(2, 4))
+    # mostly few parameters; sometimes more than nine (two-digit parameter numbers in vendor keywords)
+    D = draw(st.one_of(st.integers(2, 4), st.integers(2, 4), st.integers(2, 4), st.integers(10, 12)))
     N = draw(st.integers(1, 6))
-    base = ['FSC-H', 'SSC-H', 'FL1-H', 'FL2-A'][:D]
+    base = (['FSC-H', 'SSC-H', 'FL1-H', 'FL2-A'] + ['P%d-A' % i for i in range(5, 13)])[:D]
     tc = draw(st.sampled_from(['none', 'none', 'Time', 'TIME', 'time', 'tImE', 'two']))
     names = list(base)
     if tc == 'two':
